@@ -88,6 +88,8 @@ func typedTok(v interface{}) (string, bool) {
 			p[i] = e
 		}
 		return "#L:" + hx(enc(p)), true
+	case []byte:
+		return "#B:" + hx(string(x)), true
 	}
 	return "", false
 }
@@ -302,6 +304,9 @@ func decNum(t string) (interface{}, error) {
 	case "i8":
 		n, err := strconv.ParseInt(txt, 10, 8)
 		return int8(n), err
+	case "B":
+		b, err := hex.DecodeString(txt)
+		return b, err
 	case "Y", "S", "L":
 		b, err := hex.DecodeString(txt)
 		if err != nil {
